@@ -542,6 +542,7 @@ type seqRun struct {
 	st      *site
 	o       *obs
 	limit   int32
+	mu      sync.Mutex
 	release chan struct{}
 	entered chan struct{}
 	wg      sync.WaitGroup
@@ -582,9 +583,11 @@ func (q *seqRun) deliverHeld(sender, i int) (admitted, busy bool) {
 }
 
 func (q *seqRun) releaseAll() bool {
+	q.mu.Lock()
 	close(q.release)
-	q.wg.Wait()
 	q.release = make(chan struct{})
+	q.mu.Unlock()
+	q.wg.Wait()
 	if q.imbalanced {
 		return true
 	}
@@ -620,8 +623,11 @@ func sequentialCase(r *vk.Run, c *vk.Case, kind int) {
 	o := newObs(limit, rng.Intn(2))
 	q := &seqRun{r: r, c: c, o: o, limit: limit, release: make(chan struct{}), entered: make(chan struct{}, 64), fails: map[string]int{}}
 	hold := func() {
+		q.mu.Lock()
+		rel := q.release // the channel of the current wave, taken before the slot is announced
+		q.mu.Unlock()
 		q.entered <- struct{}{}
-		<-q.release
+		<-rel
 	}
 	st, err := buildSite(kind, o, hold)
 	if err != nil {
@@ -890,7 +896,7 @@ func main() {
 	r.MinShapes(30)
 
 	nAcc := r.N(30, 300)
-	nSeq := r.N(60, 600) // cases per tier, round-robin over the three sites
+	nSeq := r.N(120, 900) // cases per tier, round-robin over the three sites
 	nConc := r.N(90, 600)
 	r.ParallelW(nAcc+nSeq+nConc, 4, func(c *vk.Case) {
 		switch {
